@@ -5,7 +5,7 @@ NOTES = {
  'C12-4': 'first missed: relational filters with unknown fields on the child model added to c12', 'C12-2': 'first missed: wrong_model_field cases added',
  'C12-3': 'C09 first missed it too: duration shapes added to c09', 'C03-3': 'first missed: numeric stream (Spec/NumFn.lean) added to c01/c02/c03',
  'C08-3': 'first caught only by the tie theorem (no failing input): boundary literal pairs (beyond 64 bit, year 0001/9999) added to c08 - which also exposed the genuine year<1000 defect (fix b8a3ae1)',
- 'C10-1': 'catastrophic regex backtracking: per-case budget, shortened after three exhausted budgets',
+ 'C10-1': 'catastrophic regex backtracking: per-case budget, shortened after three exhausted budgets (regressed to tie-only for one run when the search began to re-run differing inputs in fresh processes and a non-terminating input hung the child; such inputs are now left to the in-process scan)',
  'C10-3': 'first caught only by the tie theorem: Unicode case twins of every keyword letter (ſ ı İ K) added to c10',
  'C13-3': 'first missed: geography / string literals with doubled quotes as TEXT and in AstGen added',
  'C14-3': 'first missed: nested lambdas re-binding the same variable x every alias map added',
@@ -97,6 +97,21 @@ NOTES = {
  'C20-12': 'first missed: inputs that fail strictly INSIDE a lambda body (function, tokenising, syntax error; nested), each followed by every probe that declares a lambda variable',
  'C02-12': 'first caught only through the tie: built-ins called with NAMED parameters in and out of declaration order must select what the positional call selects',
  'C09-12': 'first caught only through the tie: in-lists of 499 / 500 / 501 / 1 001 / 1 700 options alone and as an operand of and / or / not / a comparison',
+ 'C02-13': 'first missed: a null guard joined with a comparison on the same operand (x ne null and x gt 3, either order / side) alone and under not / eq false / ne true',
+ 'C04-13': 'first missed: a lambda COMPARED with a Boolean literal (eq / ne x true / false x either side), alone, under and / or / not and inside another lambda body, judged as L / not L',
+ 'C08-13': 'first missed: matchesPattern (and indexof / endswith / concat) templates with plain-text against regex-metacharacter literal pairs added',
+ 'C11-13': 'first missed: namespaced built-ins with the dot MANGLED into identifier characters (geo__distance, geo_length, GEO__LENGTH, my.geo__length ...) added to the unknown names',
+ 'C12-14': 'first missed: a refused sub-term (unknown field, unknown function, lambda) at every operand position next to a Boolean literal that already settles the and / or',
+ 'C07-13': 'first caught only through the tie: contents spelling the keywords the dialects emit ( LIKE ,  NOT ,  AND ,  IS NULL ...) and negated pattern functions with the content in the first argument',
+ 'C10-13': 'first caught only through the tie: wrong-arity and unknown calls of every built-in are parsed after the whole run and compared with a fresh process; differing inputs are re-run in fresh processes',
+ 'C03-14': 'first missed: a pattern stream (matchesPattern with plain-text and anchored patterns over rows that differ from the pattern only in letter case) judged against re.search',
+ 'C08-14': 'first missed: every environment variable the library source reads is set in a process of its own and the judge repeated there (none on the pinned source)',
+ 'C11-14': 'first missed: a namespaced built-in WITHOUT its namespace (distance, intersects, DISTANCE, odata.distance) added to the unknown names',
+ 'C14-14': 'first missed: alias targets that are CALLS of the function the filter applies to the alias (tolower(name) with name -> tolower(nm)), for eight functions and both unary operators',
+ 'C16-14': 'first missed: calls nested in the same call (left, right, three deep) and one-operator chains added to the translate-then-compare corpus',
+ 'C17-14': 'first missed: the strip correspondence is repeated on trees whose computed attributes (py_val, full_name) have been read, hashed, printed and traversed before',
+ 'C01-14': 'first caught only through the tie: the same unary operator applied two to four times to operands that bind more loosely than their context (not not (a or b) and c, -(-(a add b)) mul c)',
+ 'C20-11': 'regressed to not reported when the probe pool grew (the draw no longer repeated a failing text); now every failing text is parsed twice / three times on one lexer, one parser, both',
  'C19-11': 'first caught only through the tie: the re-layout recognises punctuation by its TEXT, so a tree that re-types the comma token is judged by the same whitespace-before-comma variants',
  'C20-4': 'first missed: accumulation histories (40-120 repetitions of one input, nine kinds that leave a parenthesis open) and extreme single inputs added',
 }
@@ -108,12 +123,12 @@ def main():
     n = len(res); caught = sum(1 for rc, v in res.values() if rc == '1'); inp = sum(1 for rc, v in res.values() if rc == '1' and 'no-failing' not in v)
     out = ["### 0.5 Seeded changes and which checks catch them", "",
     "Every seeded change below compiles, leaves the pinned suite at 648 passed / 10 xfailed / 4 errors, and was confirmed in a scratch worktree (its own `demo.py` passes on HEAD and fails with the patch;",
-    "`harness/confirm_seed.sh`). They were written in twelve rounds by fresh sub-agents that saw only the property text, a scratch worktree of /repo and (from round 2 on) one-line summaries of the",
+    "`harness/confirm_seed.sh`). They were written in fourteen rounds by fresh sub-agents that saw only the property text, a scratch worktree of /repo and (from round 2 on) one-line summaries of the",
     "earlier seeds for the same property so as to differ in mechanism - nothing from /verif. `harness/seed_matrix.sh` applies each in an isolated scratch worktree, runs the quick check of its",
     f"property in a scratch copy of /verif and writes `seeded/RESULTS.tsv`: {caught} of {n} are reported, {inp} with a failing input. Where a change was first missed (or caught only through a broken",
     "tie), the generator or the judge was strengthened (last column, regenerated by `harness/mkseedtable.py`) - the properties and the pass criteria were not touched. First-time detection per round",
     "(own check, before any strengthening): rounds 1-2 (47 seeds): the first misses are the ones marked in the last column (C03-3, C08-3, C12-2, C12-3, C12-4); round 3 (11 seeds): 7 with a failing input,",
-    "1 through the tie only, 3 missed; round 4 (20 seeds): 8 with a failing input, 3 through the tie only, 9 missed; round 5 (20 seeds): 10 with a failing input, 2 through the tie only, 7 missed, 1 crashed the translator; round 6 (20 seeds): 11 with a failing input, 3 through the tie only, 6 missed; round 7 (20 seeds): 13 with a failing input, 4 through the tie only, 3 missed; round 8 (20 seeds): 12 with a failing input, 1 through the tie only, 7 missed; round 9 (20 seeds): 13 with a failing input, 7 missed; round 10 (20 seeds): 8 with a failing input, 5 through the tie only, 7 missed; round 11 (20 seeds): 11 with a failing input, 9 missed; round 12 (20 seeds): 5 with a failing input, 3 through the tie only, 12 missed - rounds 3 to 12 were asked to avoid every mechanism used before, and each miss named a",
+    "1 through the tie only, 3 missed; round 4 (20 seeds): 8 with a failing input, 3 through the tie only, 9 missed; round 5 (20 seeds): 10 with a failing input, 2 through the tie only, 7 missed, 1 crashed the translator; round 6 (20 seeds): 11 with a failing input, 3 through the tie only, 6 missed; round 7 (20 seeds): 13 with a failing input, 4 through the tie only, 3 missed; round 8 (20 seeds): 12 with a failing input, 1 through the tie only, 7 missed; round 9 (20 seeds): 13 with a failing input, 7 missed; round 10 (20 seeds): 8 with a failing input, 5 through the tie only, 7 missed; round 11 (20 seeds): 11 with a failing input, 9 missed; round 12 (20 seeds): 5 with a failing input, 3 through the tie only, 12 missed; round 13 (20 seeds): 13 with a failing input, 2 through the tie only, 5 missed; round 14 (20 seeds): 13 with a failing input, 1 through the tie only, 6 missed - rounds 3 to 14 were asked to avoid every mechanism used before, and each miss named a",
     "blind spot of a GENERATOR or of a judge's scope (literal spellings, type-confusable contents, sequences on one instance, accumulation, an over-broad refusal rule, a schema feature), never of a theorem.", "",
     "| seed | file(s) | what it changes | caught by | note |", "|---|---|---|---|---|"]
     for d in sorted(glob.glob('/verif/seeded/*/')):
